@@ -114,3 +114,45 @@ func (f *FlagFlow) AtReturns(cb func(ret *ssa.Return, st uint64)) {
 		}
 	}
 }
+
+// mapStates applies f to every abstract state contained in the powerset st
+// (bit i = state i) and returns the union of the images.
+func mapStates(st uint64, f func(s int) int) uint64 {
+	var out uint64
+	for i := 0; i < 64; i++ {
+		if st&(1<<uint(i)) != 0 {
+			out |= 1 << uint(f(i))
+		}
+	}
+	return out
+}
+
+// selectEdgeCase: if the edge from->to is the edge on which case k of a
+// select fired, returns (select info, k). Only reliable when the case body is
+// not shared with another case.
+func selectEdgeCases(from, to *ssa.BasicBlock) (*SelectInfo, []int) {
+	if len(from.Instrs) == 0 {
+		return nil, nil
+	}
+	ifi, ok := from.Instrs[len(from.Instrs)-1].(*ssa.If)
+	if !ok || from.Succs[0] != to {
+		return nil, nil
+	}
+	bo, ok := ifi.Cond.(*ssa.BinOp)
+	if !ok {
+		return nil, nil
+	}
+	ex, ok := bo.X.(*ssa.Extract)
+	if !ok || ex.Index != 0 {
+		return nil, nil
+	}
+	sel, ok := ex.Tuple.(*ssa.Select)
+	if !ok {
+		return nil, nil
+	}
+	k, ok := bo.Y.(*ssa.Const)
+	if !ok {
+		return nil, nil
+	}
+	return decodeSelect(sel), []int{int(k.Int64())}
+}
